@@ -44,3 +44,15 @@ pub fn vx_uuid_parse(s: &str) -> (r: Option<Uuid>)
 // upper-cased and with the braces trimmed
 pub axiom fn axiom_uuid_roundtrip(u: Uuid)
     ensures uuid_parse(trim_end_c(trim_start_c(ascii_upper(uuid_braced(u)), '{'), '}')) == Some(u);
+// the nil UUID (all zero bits)
+pub uninterp spec fn uuid_is_nil(u: Uuid) -> bool;
+impl Uuid {
+    #[verifier::external_body]
+    pub fn is_nil(&self) -> (r: bool)
+        ensures r == uuid_is_nil(*self)
+    { unimplemented!() }
+    #[verifier::external_body]
+    pub fn nil() -> (r: Uuid)
+        ensures uuid_is_nil(r)
+    { unimplemented!() }
+}
